@@ -39,11 +39,15 @@ const (
 )
 
 func (dt Type) String() string {
-	return []string{
+	names := []string{
 		"-",
 		"+",
 		" ",
-	}[dt]
+	}
+	if dt < 0 || int(dt) >= len(names) {
+		return fmt.Sprintf("Type(%d)", int(dt))
+	}
+	return names[dt]
 }
 
 // Diff format of a diff
